@@ -93,6 +93,7 @@ pub fn emit_family(rb: &mut RunBuilder, r: &mut Rng, family: u64, src: u32, othe
                 for n in 1..=3 {
                     out.push(rb.fault(src, FaultKind::Pad { seg: seg.clone(), n }, None));
                 }
+                out.push(rb.fault(src, FaultKind::AlphabetSwap { seg: seg.clone() }, None));
             }
         }
         8 => {
@@ -250,6 +251,12 @@ fn gen(ctx: &GenCtx, i: u64) -> Option<Run> {
         let fam = if k == 0 { (i / 8) % 11 } else { r.below(11) };
         let fam = if slow && (fam == 0 || fam == 2 || fam == 3) && payload_bound > 400 { 8 } else { fam };
         emit_family(&mut rb, &mut r, fam, t.msg, Some(other.msg), text_bound, payload_bound, flen, proto, &mut outs);
+    }
+    for seg in [Seg::Payload, Seg::Footer] {
+        outs.push(rb.fault(t.msg, FaultKind::AlphabetSwap { seg: seg.clone() }, None));
+        for n in 1..=2 {
+            outs.push(rb.fault(t.msg, FaultKind::Pad { seg: seg.clone(), n }, None));
+        }
     }
     let twin_every = 7;
     for (k, m) in outs.iter().enumerate() {
